@@ -237,6 +237,21 @@ def impl_numeric(code: bytes, salt: bytes, b: int, A: bytes, M: Optional[bytes])
             "u": hx(ref.i2b(srv.u)), "S": hx(ref.i2b(srv.S)), "K": hx(ref.i2b(srv.get_session_key())),
             "Kb": hx(srv.Kb), "M": hx(srv.M), "HAMK": hx(srv.HAMK),
         }
+        # every remaining function of hsrp.Server, called on its own on the real object
+        ch = srv.get_challenge()
+        out.update({
+            "_get_private_key": hx(ref.i2b(srv._get_private_key())),
+            "_get_verifier": hx(ref.i2b(srv._get_verifier())),
+            "_get_k": hx(ref.i2b(srv._get_k())),
+            "_derive_B": hx(ref.i2b(srv._derive_B())),
+            "get_challenge": [hx(ch[0]), hx(ref.i2b(ch[1]))],
+            "_padN_A": hx(srv._padN(A)), "_padN_B": hx(srv._padN(srv.Bb)),
+            "_get_K": hx(ref.i2b(srv._get_K())),
+            "_get_M": hx(srv._get_M()),
+            "_get_HAMK": hx(srv._get_HAMK()),
+            "get_session_key": hx(ref.i2b(srv.get_session_key())),
+            "get_session_key_bytes": hx(srv.get_session_key_bytes()),
+        })
         if M is not None:
             r = srv.verify(M)
             out["verify"] = None if r is None else hx(r)
@@ -532,7 +547,9 @@ def run(ctx: Ctx):
     rng = ctx.rng
     st.rule = (
         "streams: sha512 (Lean SHA-512 vs hashlib), numeric (hsrp.Server vs Srp.lean on (code,salt,b,A): "
-        "v,k,B,u,S,K,Kb,M,HAMK,verify byte for byte), exchange (reference controller M1..M6 against the real "
+        "v,k,B,u,S,K,Kb,M,HAMK,verify byte for byte, and every other function of the class called on its own: "
+        "_get_private_key, _get_verifier, _get_k, _derive_B, get_challenge, _padN, _get_K, _get_M, _get_HAMK, "
+        "get_session_key, get_session_key_bytes), exchange (reference controller M1..M6 against the real "
         "handler and against PairSetup.lean; also after failed / abandoned attempts on the same or another connection "
         "and with bystander connections made/lost or refused requests between the controller's messages).  Non-trivial: a numeric/exchange case that reaches set_A+verify "
         "(all do); distinct by (code, salt, b, A / a)."
